@@ -269,6 +269,13 @@ func genC04(r *Rand, p *Plan, tier string) {
 		if r.Chance(30) {
 			cs.Ops = append(cs.Ops, Op{Kind: "raw", Raw: r.Bytes(r.Len(200))})
 		}
+		if r.Chance(12) {
+			// the peer obfuscates with another key and is gone (or its path is) by the time
+			// the receiver answers: the answer's write fails
+			cs.Key = []byte("other-" + r.Alnum(8))
+			cs.WFault = append(cs.WFault, WFaultAt(1, PickOf(r, "error", "error", "short")))
+			p.Scen.Faulty = true
+		}
 		cs.Ops = append(cs.Ops, Op{Kind: PickOf(r, "close", "idle", "reset")})
 		p.Scen.Clients = []ClientSpec{cs}
 	case 1: // hostile replies into the real client's read path
